@@ -2886,3 +2886,53 @@ data: [DONE]\n\n";
             .any(|event| matches!(event.kind, EventKind::ToolEnded { .. })));
     }
 }
+
+/// Verification exports (compiled only with `--cfg rip_verif`).
+#[cfg(rip_verif)]
+pub mod verif_hooks {
+    use super::*;
+
+    /// Feeds byte chunks through a real `OpenResponsesSsePipe` exactly as the read loop of
+    /// `stream_openresponses_request` does (stop at the first chunk that reports `[DONE]`,
+    /// `finish` otherwise) and returns the frames recorded, the final seq and `saw_done`.
+    pub async fn pipe_feed(
+        data_dir: &std::path::Path,
+        session_id: &str,
+        seq_start: u64,
+        chunks: &[Vec<u8>],
+    ) -> (Vec<Event>, u64, bool) {
+        let (sender, _rx) = broadcast::channel::<Event>(1 << 16);
+        let buffer = Arc::new(Mutex::new(Vec::new()));
+        let event_log = EventLog::new(data_dir.join("events.jsonl")).expect("event log");
+        let mut seq = seq_start;
+        let saw_done;
+        {
+            let sink = EventSink {
+                sender: &sender,
+                buffer: &buffer,
+                event_log: &event_log,
+            };
+            let mut pipe = OpenResponsesSsePipe::new(
+                session_id,
+                &mut seq,
+                sink,
+                None,
+                ValidationOptions::compat_missing_item_ids(),
+            );
+            let mut utf8_buf = Vec::new();
+            let mut done = false;
+            for chunk in chunks {
+                done = pipe.push_bytes(&mut utf8_buf, chunk).await;
+                if done {
+                    break;
+                }
+            }
+            if !done {
+                let _ = pipe.finish().await;
+            }
+            saw_done = done;
+        }
+        let frames = buffer.lock().await.clone();
+        (frames, seq, saw_done)
+    }
+}
